@@ -545,6 +545,19 @@ func (g *Gen) Opts() []Opt {
 	return os
 }
 
+// IPv6 draws 16 address octets; one in six lies in ::ffff:0:0/96 (IPv4-mapped) or ::/96, which the
+// Go net package is inclined to take for IPv4 addresses.
+func (g *Gen) IPv6() []byte {
+	b := g.Bytes(16)
+	switch g.R.IntN(12) {
+	case 0:
+		copy(b, []byte{0, 0, 0, 0, 0, 0, 0, 0, 0, 0, 0xff, 0xff})
+	case 1:
+		copy(b, make([]byte, 12))
+	}
+	return b
+}
+
 // Val draws a value for field fd of layout l. budget is the remaining RDATA room.
 func (g *Gen) Val(l *Layout, fd Field, budget int) any {
 	switch fd.Kind {
@@ -561,7 +574,7 @@ func (g *Gen) Val(l *Layout, fd Field, budget int) any {
 	case KA:
 		return g.Bytes(4)
 	case KAAAA:
-		return g.Bytes(16)
+		return g.IPv6()
 	case KName, KCName:
 		return g.Name()
 	case KStr:
@@ -618,7 +631,7 @@ func (g *Gen) Val(l *Layout, fd Field, budget int) any {
 		case 1:
 			gw.Addr = g.Bytes(4)
 		case 2:
-			gw.Addr = g.Bytes(16)
+			gw.Addr = g.IPv6()
 		case 3:
 			gw.Host = g.Name()
 		}
